@@ -25,6 +25,7 @@ package topo
 //@   modifies lastTopoGetOK
 //@   ensures lastTopoGetOK == (err == nil)
 //@   ensures err != nil ==> result == nil
+//@   ensures errWF(err)
 //@   ensures err == nil ==> result != nil && fresh(result) && result.ID == id
 
 //@ spec isControlsRelation(o *topoapi.Object) bool = o.Type == topoapi.Object_RELATION && isType(o.Obj, "*topoapi.Object_Relation") && asType(o.Obj, "*topoapi.Object_Relation") != nil && asType(o.Obj, "*topoapi.Object_Relation").Relation != nil && asType(o.Obj, "*topoapi.Object_Relation").Relation.KindID == topoapi.CONTROLS
